@@ -254,32 +254,60 @@ Theorem C13_methods_agree_with_determinism :
 Proof. exact Gengo.Props.Tables.Tables_methods_agree. Qed.
 Print Assumptions C13_methods_agree_with_determinism.
 
-(* ... and with the ordering of package.go:146-157 (repair 50ddee1, not part of Model/Universe.v:
-   [T.sorted_methods_of pos]) the two lists are equal *)
+(* ---- the ordering of the method lists (package.go:146-157, repair 50ddee1; [sort_methods], [new_pkg_tables]) ----
+   The comparison of Model/Determinism.v (C04) with this model showed that this model stopped at line 144: its
+   MethodsOf answered in the order of the range over Defs, the code answers in position order.  [new_pkg_tables fx pos
+   defs] = the loop, then every method list ordered by [pos] (the rank of (file name, offset)); Corr/C13.v now compares
+   MethodsOf with it IN ORDER. *)
+
+(* the name tables are those of the loop: every theorem above speaks about new_pkg_tables as well *)
+Theorem C13_new_pkg_tables_names :
+  forall fx pos defs k n, lookup k n (new_pkg_tables fx pos defs) = lookup k n (fill_tables fx defs).
+Proof. reflexivity. Qed.
+Print Assumptions C13_new_pkg_tables_names.
+
+(* MethodsOf(n, true) of the current code: the methods declared on n's origin, in position order ... *)
+Theorem C13_methods_sorted_spec :
+  forall (pos : obj -> N) defs pi n,
+    Permutation pi defs ->
+    Permutation (methods_of all_fixed (new_pkg_tables all_fixed pos pi) n true) (filter (declared_on (n_origin n)) defs)
+    /\ StronglySorted (fun a b => N.leb (pos a) (pos b) = true) (methods_of all_fixed (new_pkg_tables all_fixed pos pi) n true).
+Proof. exact Gengo.Props.Tables.Tables_sorted_methods_spec. Qed.
+Print Assumptions C13_methods_sorted_spec.
+
+(* ... the same LIST for every order in which Defs is ranged over (distinct positions), value receivers or all *)
+Theorem C13_methods_sorted_order_independent :
+  forall (pos : obj -> N) defs p1 p2 n ptr,
+    Permutation p1 defs -> Permutation p2 defs ->
+    NoDup (map pos (T.meths_of defs)) ->
+    methods_of all_fixed (new_pkg_tables all_fixed pos p1) n ptr = methods_of all_fixed (new_pkg_tables all_fixed pos p2) n ptr.
+Proof. exact Gengo.Props.Tables.Tables_sorted_methods_order_independent. Qed.
+Print Assumptions C13_methods_sorted_order_independent.
+
+(* ... and equal to Determinism's MethodsOf (positions = object identities there) *)
 Theorem C13_methods_sorted_agree_with_determinism :
   forall (o : Determinism.oracle) p ptr os n,
     Determinism.shuffles o ->
     NoDup (map Determinism.m_pos (Determinism.pk_meths p)) ->
     Permutation (T.meths_of os) (map (T.u_of_meth ptr) (Determinism.pk_meths p)) ->
-    map o_name (T.sorted_methods_of o_id (fill_tables all_fixed os) n true)
+    map o_name (methods_of all_fixed (new_pkg_tables all_fixed o_id os) n true)
     = Determinism.methods_of true o p (n_origin n).
 Proof. exact Gengo.Props.Tables.Tables_methods_sorted_agree. Qed.
 Print Assumptions C13_methods_sorted_agree_with_determinism.
 
-(* MethodsOf of the current code (table + ordering): the methods declared on the origin, sorted by position —
-   the same list for every order in which Defs is ranged over (distinct positions) *)
-Theorem C13_methods_sorted_order_independent :
-  forall (pos : obj -> N) defs p1 p2 n ptr,
-    Permutation p1 defs -> Permutation p2 defs ->
-    NoDup (map pos (T.meths_of defs)) ->
-    T.sorted_methods_of pos (fill_tables all_fixed p1) n ptr = T.sorted_methods_of pos (fill_tables all_fixed p2) n ptr.
-Proof. exact Gengo.Props.Tables.Tables_sorted_methods_order_independent. Qed.
-Print Assumptions C13_methods_sorted_order_independent.
+(* before the repair the answer depended on the order of Defs *)
+Theorem C13_methods_order_dependent_before_fix :
+  exists defs p1 p2 n,
+    Permutation p1 defs /\ Permutation p2 defs
+    /\ methods_of all_fixed (fill_tables all_fixed p1) n true <> methods_of all_fixed (fill_tables all_fixed p2) n true.
+Proof.
+  exists [ex_P; ex_V], [ex_P; ex_V], [ex_V; ex_P], (mk_nref 99 10).
+  split; [apply Permutation_refl|]. split; [apply perm_swap|]. vm_compute. discriminate.
+Qed.
+Print Assumptions C13_methods_order_dependent_before_fix.
 
-Theorem C13_methods_sorted_spec :
-  forall (pos : obj -> N) defs pi n,
-    Permutation pi defs ->
-    Permutation (T.sorted_methods_of pos (fill_tables all_fixed pi) n true) (filter (declared_on (n_origin n)) defs)
-    /\ StronglySorted (fun a b => N.leb (pos a) (pos b) = true) (T.sorted_methods_of pos (fill_tables all_fixed pi) n true).
-Proof. exact Gengo.Props.Tables.Tables_sorted_methods_spec. Qed.
-Print Assumptions C13_methods_sorted_spec.
+Example C13_example_methods_sorted :
+  map o_id (methods_of all_fixed (new_pkg_tables all_fixed o_id (rev ex_pkg)) (mk_nref 99 10) true) = [4; 5]%N
+  /\ map o_id (methods_of all_fixed (new_pkg_tables all_fixed o_id ex_pkg) (mk_nref 99 10) true) = [4; 5]%N
+  /\ map o_id (methods_of all_fixed (new_pkg_tables all_fixed o_id (rev ex_pkg)) (mk_nref 99 10) false) = [5]%N.
+Proof. vm_compute. repeat split; reflexivity. Qed.
